@@ -328,6 +328,18 @@ func c18Observers(st map[string]string) []*gw.Req {
 		NewReq("GET", gw.ObjPath(c18B, "k1"), gw.Q("versionId", "null"), nil, nil),
 		NewReq("HEAD", gw.ObjPath(c18B, "k1"), gw.Q("versionId", "null"), nil, nil),
 		NewReq("GET", gw.ObjPath(c18B, "k1"), "attributes", H("x-amz-object-attributes", "ETag,ObjectSize"), nil),
+		// every listing again from a client-chosen position (markers are passed through field by field)
+		NewReq("GET", "/"+c18B, gw.Q("uploads", "", "key-marker", "a"), nil, nil),
+		NewReq("GET", "/"+c18B, gw.Q("uploads", "", "key-marker", "mp"), nil, nil),
+		// upload ids are random on each side: the id markers are fixed strings that sort before / behind every id
+		NewReq("GET", "/"+c18B, gw.Q("uploads", "", "key-marker", "mp", "upload-id-marker", "0"), nil, nil),
+		NewReq("GET", "/"+c18B, gw.Q("uploads", "", "key-marker", "mp", "upload-id-marker", "zzzz"), nil, nil),
+		NewReq("GET", "/"+c18B, gw.Q("uploads", "", "prefix", "m", "delimiter", "/"), nil, nil),
+		NewReq("GET", gw.ObjPath(c18B, "mp"), gw.Q("uploadId", orDash(st["upload"]), "part-number-marker", "1"), nil, nil),
+		NewReq("GET", "/"+c18B, gw.Q("marker", "k1"), nil, nil),
+		NewReq("GET", "/"+c18B, gw.Q("list-type", "2", "start-after", "k1"), nil, nil),
+		NewReq("GET", "/"+c18B, gw.Q("versions", "", "key-marker", "dir/k2"), nil, nil),
+		NewReq("GET", "/"+c18B, gw.Q("versions", "", "prefix", "k", "max-keys", "1"), nil, nil),
 	}
 }
 
@@ -355,7 +367,7 @@ func c18Canon(resp *gw.Resp, st map[string]string) string {
 	if resp.Status >= 400 {
 		body = "" // error documents differ in message / resource wording; the code is compared above
 	}
-	for _, tagn := range []string{"LastModified", "Initiated", "UploadId", "RequestId", "HostId", "DisplayName", "CreationDate", "NextUploadIdMarker", "UploadIdMarker"} {
+	for _, tagn := range []string{"LastModified", "Initiated", "UploadId", "RequestId", "HostId", "DisplayName", "CreationDate", "NextUploadIdMarker", "UploadIdMarker", "NextVersionIdMarker", "VersionIdMarker"} {
 		body = maskTag(body, tagn)
 	}
 	if up := st["upload"]; up != "" {
@@ -469,7 +481,7 @@ func C18(r *ck.Run) {
 	if r.Thorough() {
 		depth = 3
 	}
-	r.Rule(fmt.Sprintf("every program of length <= %d over 38 (42 thorough) bucket, object, tagging, policy, listing and multipart operations (four of them signed with a wrong secret, one with a checksum that is not the body's, one completion that states object size 0) is executed twice from an empty store: through a gateway whose backend is s3proxy pointed at an endpoint process (a posix versitygw on loopback TCP), and against that endpoint directly; after every step 30 read requests (ListBuckets, GET whole / ranges, HEAD, attributes, tagging, listings v1/v2 with prefix / delimiter / max-keys, uploads, parts, bucket tagging / policy / ACL / versioning) are issued on both sides and every response (status, error code, content headers, user metadata, ETag, body with timestamps and ids masked) must be equal; callers: root and a userplus account that owns the bucket; distinct = (caller, program)", depth))
+	r.Rule(fmt.Sprintf("every program of length <= %d over 38 (42 thorough) bucket, object, tagging, policy, listing and multipart operations (four of them signed with a wrong secret, one with a checksum that is not the body's, one completion that states object size 0) is executed twice from an empty store: through a gateway whose backend is s3proxy pointed at an endpoint process (a posix versitygw on loopback TCP), and against that endpoint directly; after every step 40 read requests (ListBuckets, every listing also from a client-chosen position: key / upload-id / part-number / version markers, start-after, GET whole / ranges, HEAD, attributes, tagging, listings v1/v2 with prefix / delimiter / max-keys, uploads, parts, bucket tagging / policy / ACL / versioning) are issued on both sides and every response (status, error code, content headers, user metadata, ETag, body with timestamps and ids masked) must be equal; callers: root and a userplus account that owns the bucket; distinct = (caller, program)", depth))
 	r.Assume("the 'other S3 endpoint' is versitygw itself (posix backend) in a child process; error documents are compared by status and code only")
 	ops := c18Ops(r.Thorough())
 	var progs [][]int
